@@ -58,6 +58,32 @@ class AddJacobian:
         "y3 == r * (t - x3) - s1 * hcube)"),
   ]
   ghost_ensures = []
+  # ---- value pass (body unmodified): WHICH branch is taken, as a statement about field elements.  With
+  # DX = x1*z2^2 - x2*z1^2 and DY = y1*z2^3 - y2*z1^3 (the differences of the affine coordinates, cleared of
+  # denominators): infinity operands are returned as the other operand; DX != 0 (mod p) <=> the chord formula above;
+  # DX == 0, DY != 0 (mod p) => the point at infinity; DX == DY == 0 (mod p) <=> DoubleJacobian(p).
+  value_pass = True
+  entry_ghost = ["g_dbl = False"]
+  on_call = {f"{E}::EcCurve.DoubleJacobian": ["assert [VALUE] args[0] == p", "g_dbl = True"]}
+  ensures = [("VALUE", "implies(p[2] == 0, result == q)"),
+             ("VALUE", "implies(p[2] != 0 and q[2] == 0, result == p)")]
+  return_hints += [
+      ("VALUE", "implies(not defined('u1'), not g_dbl and (p[2] == 0 or q[2] == 0))"),
+      ("VALUE", "implies(defined('u1'), p[2] != 0 and q[2] != 0 and "
+                "lemma('mod_mul_r', x1, z2 * z2, self.mod) and lemma('mod_mul_r', x2, z1 * z1, self.mod) and "
+                "lemma('mod_mul_r', y1 * z2, z2 * z2, self.mod) and lemma('mod_mul_r', y2 * z1, z1 * z1, self.mod))"),
+      ("VALUE", "implies(defined('u1'), u1 == (x1 * (z2 * z2)) % self.mod and u2 == (x2 * (z1 * z1)) % self.mod and "
+                "s1 == (y1 * z2 * (z2 * z2)) % self.mod and s2 == (y2 * z1 * (z1 * z1)) % self.mod)"),
+      ("VALUE", "implies(defined('u1'), lemma('mod_eq_iff', x1 * (z2 * z2), x2 * (z1 * z1), self.mod) and "
+                "lemma('mod_eq_iff', y1 * z2 * (z2 * z2), y2 * z1 * (z1 * z1), self.mod))"),
+      ("VALUE", "let DX = ((x1 * (z2 * z2) - x2 * (z1 * z1)) % self.mod) if defined('u1') else 0"),
+      ("VALUE", "let DY = ((y1 * z2 * (z2 * z2) - y2 * z1 * (z1 * z1)) % self.mod) if defined('u1') else 0"),
+      ("VALUE", "implies(defined('u1'), defined('hcube') == (DX != 0))"),
+      ("VALUE", "implies(defined('u1') and DX == 0 and DY != 0, result[2] == 0 and not g_dbl)"),
+      ("VALUE", "implies(defined('u1'), g_dbl == (DX == 0 and DY == 0))"),
+      ("VALUE", "implies(defined('hcube'), 0 <= result[0] and result[0] < self.mod and 0 <= result[1] and "
+                "result[1] < self.mod and 0 <= result[2] and result[2] < self.mod)"),
+  ]
   props = ["C11"]
 
 
@@ -95,7 +121,13 @@ class DoubleJacobian:
       gd("by(y2 == (sl * (ax - (sl * sl - 2 * ax)) - ay) * (z2 * z2 * z2), y2 == m * (s - x2) - 8 * ysqr * ysqr, "
          "m == sl * z2, s == ax * (z2 * z2), x2 == (sl * sl - 2 * ax) * (z2 * z2), "
          "8 * ysqr * ysqr == ay * (z2 * z2 * z2))"),
+      # value pass: the tangent formula is used exactly for finite points with y != 0; otherwise the canonical infinity
+      ("VALUE", "defined('ysqr') == (p[2] != 0 and p[1] != 0)"),
+      ("VALUE", "implies(defined('ysqr'), 0 <= result[0] and result[0] < self.mod and 0 <= result[1] and "
+                "result[1] < self.mod and 0 <= result[2] and result[2] < self.mod)"),
   ]
+  value_pass = True
+  ensures = [("VALUE", "implies(p[2] == 0 or p[1] == 0, result[0] == 1 and result[1] == 1 and result[2] == 0)")]
   props = ["C11"]
 
 
@@ -106,9 +138,17 @@ class AddAffine:
   self_fields = F
   returns = "point"
   congruence_mod = "self.mod"
-  requires = ["self.mod >= 3", "(p[0] is None) == (p[1] is None)", "(q[0] is None) == (q[1] is None)"]
+  # in a prime field every difference x1 - x2 is 0 or a unit; under that hypothesis (value pass) the chord branch never
+  # raises (the doubling branch is Double's business)
+  requires = ["self.mod >= 3", "(p[0] is None) == (p[1] is None)", "(q[0] is None) == (q[1] is None)",
+              ("VALUE", "p[0] is None or q[0] is None or (p[0] - q[0]) % self.mod == 0 or "
+                        "gcd(p[0] - q[0], self.mod) == 1"),
+              ("VALUE", "p[0] is None or p[1] % self.mod == 0 or gcd(2 * p[1], self.mod) == 1")]
+  value_total = ["ZeroDivisionError"]
   ensures = [("C11", "implies(p[0] is None, result[0] == q[0] and result[1] == q[1])"),
-             ("C11", "implies(p[0] is not None and q[0] is None, result[0] == p[0] and result[1] == p[1])")]
+             ("C11", "implies(p[0] is not None and q[0] is None, result[0] == p[0] and result[1] == p[1])"),
+             ("VALUE", "implies(p[0] is None, result == q)"),
+             ("VALUE", "implies(p[0] is not None and q[0] is None, result == p)")]
   # chord branch: the slope t satisfies t*(x1 - x2) == y1 - y2 (mod p) and (x3, y3) = (t^2 - x1 - x2, t*(x1 - x3) - y1)
   return_hints = [
       ("C11", "implies(defined('inv'), divmod_def(inv * (x1 - x2) - 1, self.mod))"),
@@ -118,7 +158,18 @@ class AddAffine:
       ("C11", "implies(defined('inv'), euclid(t * (x1 - x2) - (y1 - y2), self.mod, 0, (y1 - y2) * kk))"),
       ("C11", "implies(defined('inv'), (t * (x1 - x2) - (y1 - y2)) % self.mod == 0 and "
               "result[0] == t * t - x1 - x2 and result[1] == t * (x1 - (t * t - x1 - x2)) - y1)"),
+      # value pass: branch taken as a statement about field elements (x1 == x2, y1 == y2 modulo p), reduced results
+      ("VALUE", "implies(not defined('x1'), not g_dbl and (p[0] is None or q[0] is None))"),
+      ("VALUE", "implies(defined('x1'), defined('inv') == ((x1 - x2) % self.mod != 0))"),
+      ("VALUE", "implies(defined('x1') and (x1 - x2) % self.mod == 0 and (y1 - y2) % self.mod != 0, "
+                "result[0] is None and result[1] is None and not g_dbl)"),
+      ("VALUE", "implies(defined('x1'), g_dbl == ((x1 - x2) % self.mod == 0 and (y1 - y2) % self.mod == 0))"),
+      ("VALUE", "implies(defined('inv'), 0 <= result[0] and result[0] < self.mod and 0 <= result[1] and "
+                "result[1] < self.mod)"),
   ]
+  value_pass = True
+  entry_ghost = ["g_dbl = False"]
+  on_call = {f"{E}::EcCurve.Double": ["assert [VALUE] args[0] == p", "g_dbl = True"]}
   props = ["C11"]
 
 
@@ -129,7 +180,10 @@ class DoubleAffine:
   self_fields = F
   returns = "point"
   congruence_mod = "self.mod"
-  requires = ["self.mod >= 3", "(p[0] is None) == (p[1] is None)"]
+  # in a field of odd prime order every y is 0 or 2y is a unit; under that hypothesis (value pass) Double never raises
+  requires = ["self.mod >= 3", "(p[0] is None) == (p[1] is None)",
+              ("VALUE", "p[0] is None or p[1] % self.mod == 0 or gcd(2 * p[1], self.mod) == 1")]
+  value_total = ["ZeroDivisionError"]
   ensures = [("C11", "implies(p[0] is None, result[0] is None and result[1] is None)")]
   # tangent branch: t * 2y == 3x^2 + a (mod p), (x2, y2) = (t^2 - 2x, t*(x - x2) - y)
   return_hints = [
@@ -142,7 +196,13 @@ class DoubleAffine:
       ("C11", "implies(defined('den'), euclid(t * den - num, self.mod, 0, num * kk))"),
       ("C11", "implies(defined('den'), (t * (2 * y) - (3 * x * x + self.a)) % self.mod == 0 and "
               "result[0] == t * t - 2 * x and result[1] == t * (x - (t * t - 2 * x)) - y)"),
+      # value pass: tangent formula exactly for finite points whose y is not 0 modulo p, otherwise infinity
+      ("VALUE", "implies(p[0] is not None, defined('den') == (p[1] % self.mod != 0))"),
+      ("VALUE", "implies(not defined('den'), result[0] is None and result[1] is None)"),
+      ("VALUE", "implies(defined('den'), 0 <= result[0] and result[0] < self.mod and 0 <= result[1] and "
+                "result[1] < self.mod)"),
   ]
+  value_pass = True
   props = ["C11"]
 
 
